@@ -9,7 +9,8 @@
 // edges.  Only fields that are written somewhere outside the constructor produce access nodes.
 //
 // Limits (stated in DESIGN.md): no aliasing (m := s.f; m[k] = v is a read of f), accesses through
-// other structs are not tracked, local variables shared by closures are not tracked, recursion is cut
+// other structs are not tracked, local variables shared by goroutines are the subject of the second
+// graph per package (locals.go), recursion is cut
 // at depth 8, function values stored in variables are treated as called where they are defined.
 package main
 
@@ -50,12 +51,13 @@ type pkgResult struct {
 	Nodes    int                `json:"nodes"`
 	Accesses map[string]accInfo `json:"accesses"` // node index -> info
 	Notes    []string           `json:"notes"`
-	Groups   []string           `json:"groups"` // group id -> description
-	Single   []bool             `json:"single"` // group id -> at most one thread
+	Groups   []string           `json:"groups"`    // group id -> description
+	Single   []bool             `json:"single"`    // group id -> at most one thread
 	Pos      []string           `json:"positions"` // node index -> file:line ("" when none)
 	Instrs   []string           `json:"instrs"`    // node index -> instruction text
 	nodes    []node
 	entryIDs []int
+	locals   *pkgResult // the graph of the local variables shared by goroutines (locals.go); nil if there are none
 }
 
 var asyncAPIs = map[string]bool{
@@ -63,19 +65,20 @@ var asyncAPIs = map[string]bool{
 }
 
 type fnCtx struct {
-	recv    map[string]bool // identifiers denoting the service value
-	defers  []ast.Expr      // deferred calls, in registration order
-	returns []int           // frontier nodes that leave the function
-	breaks  []*[]int
-	conts   []*[]int
-	labels  map[string]int // label -> index into breaks/conts
-	stack   []string       // inlined method names (recursion guard)
-	entry   string
-	group   int
-	alias   map[string]map[string]bool // local identifier -> fields it may alias
-	ctor    bool                       // walking a constructor (its own nodes are discarded)
-	funcs   map[string]*ast.FuncLit    // local identifier -> function literal bound to it (x := func(..) {..})
-	loopDepth int                      // loops/switches open in the callers (inlined methods)
+	recv      map[string]bool // identifiers denoting the service value
+	defers    []ast.Expr      // deferred calls, in registration order
+	returns   []int           // frontier nodes that leave the function
+	breaks    []*[]int
+	conts     []*[]int
+	labels    map[string]int // label -> index into breaks/conts
+	stack     []string       // inlined method names (recursion guard)
+	entry     string
+	group     int
+	alias     map[string]map[string]bool // local identifier -> fields it may alias
+	ctor      bool                       // walking a constructor (its own nodes are discarded)
+	funcs     map[string]*ast.FuncLit    // local identifier -> function literal bound to it (x := func(..) {..})
+	loopDepth int                        // loops/switches open in the callers (inlined methods)
+	lc        *locCtx                    // locals mode (locals.go): the walk of one thread body
 }
 
 func (fc *fnCtx) inLoop() bool { return fc.loopDepth+len(fc.breaks) > 0 }
@@ -94,6 +97,7 @@ type builder struct {
 	allWritten   bool
 	curGroup     int
 	weakExported bool
+	loc          *localsState // non-nil: locals mode (locals.go)
 }
 
 type pendingEntry struct {
@@ -173,6 +177,11 @@ func (b *builder) mutexCall(call *ast.CallExpr, fc *fnCtx) (string, bool) {
 	if !ok {
 		return "", false
 	}
+	if b.loc != nil {
+		if lid, isIdent := sel.X.(*ast.Ident); isIdent && len(call.Args) == 0 {
+			return b.locMutexCall(lid, sel.Sel.Name, fc)
+		}
+	}
 	inner, ok := sel.X.(*ast.SelectorExpr)
 	if !ok {
 		return "", false
@@ -206,6 +215,11 @@ func (b *builder) expr(e ast.Expr, frontier []int, fc *fnCtx) []int {
 		return frontier
 	}
 	switch x := e.(type) {
+	case *ast.Ident:
+		if b.loc != nil {
+			return b.locAccess(x, false, true, frontier, fc)
+		}
+		return frontier
 	case *ast.CallExpr:
 		return b.call(x, frontier, fc, false)
 	case *ast.SelectorExpr:
@@ -223,7 +237,7 @@ func (b *builder) expr(e ast.Expr, frontier []int, fc *fnCtx) []int {
 	case *ast.FuncLit:
 		// a function value not called here: treated as possibly executed at this point, any number of times
 		head := b.emit("ISkip", frontier, x)
-		sub := &fnCtx{recv: fc.recv, stack: fc.stack, entry: fc.entry, labels: map[string]int{}, alias: fc.alias, ctor: fc.ctor, funcs: fc.funcs}
+		sub := &fnCtx{recv: fc.recv, stack: fc.stack, entry: fc.entry, labels: map[string]int{}, alias: fc.alias, ctor: fc.ctor, funcs: fc.funcs, lc: fc.lc}
 		out := b.block(x.Body, head, sub)
 		out = append(out, sub.returns...)
 		b.link(out, head[0])
@@ -271,6 +285,11 @@ func (b *builder) call(call *ast.CallExpr, frontier []int, fc *fnCtx, isGo bool)
 		if f, ok := b.baseField(call.Args[0], fc); ok {
 			return b.access(f, true, frontier, call, fc)
 		}
+		if b.loc != nil {
+			if lid := baseIdentNode(call.Args[0]); lid != nil {
+				return b.locAccess(lid, true, false, frontier, fc)
+			}
+		}
 		if id, ok := baseIdent(call.Args[0]); ok && fc.alias != nil {
 			for f := range fc.alias[id] {
 				frontier = b.access(f, true, frontier, call, fc)
@@ -292,10 +311,23 @@ func (b *builder) call(call *ast.CallExpr, frontier []int, fc *fnCtx, isGo bool)
 	// (a registration inside a loop creates several subscriptions / jobs: not single)
 	singleGroup := (calleeName == "Events" || calleeName == "SchedulePeriodicJob") && !fc.inLoop()
 	grp := -1
+	// locals mode: the signature of a callee that is inlined or started as a thread (its reference-typed
+	// parameters are bound to the caller's variables instead of being read here)
+	var sig *ast.FuncType
+	if b.loc != nil {
+		sig = b.locSignature(call, fc)
+	}
 	// arguments
-	for _, a := range call.Args {
+	for ai, a := range call.Args {
+		if sig != nil && b.locBindable(sig, ai, a, fc) {
+			continue
+		}
 		switch av := a.(type) {
 		case *ast.FuncLit:
+			if async && b.loc != nil {
+				b.locSpawn(fmt.Sprintf("%s@%s", calleeName, b.pos(av)), av.Type, av.Body, nil, fc, "")
+				continue
+			}
 			if async {
 				g := b.addEntryG(fmt.Sprintf("%s@%s", calleeName, b.pos(av)), av.Body, fc.recv, "", grp, singleGroup)
 				if singleGroup {
@@ -304,6 +336,10 @@ func (b *builder) call(call *ast.CallExpr, frontier []int, fc *fnCtx, isGo bool)
 				continue
 			}
 		case *ast.Ident:
+			if lit, ok := fc.funcs[av.Name]; ok && async && b.loc != nil {
+				b.locSpawn(fmt.Sprintf("%s@%s", calleeName, b.pos(lit)), lit.Type, lit.Body, nil, fc, "")
+				continue
+			}
 			if lit, ok := fc.funcs[av.Name]; ok && async {
 				g := b.addEntryG(fmt.Sprintf("%s@%s", calleeName, b.pos(lit)), lit.Body, fc.recv, "", grp, singleGroup)
 				if singleGroup {
@@ -326,6 +362,14 @@ func (b *builder) call(call *ast.CallExpr, frontier []int, fc *fnCtx, isGo bool)
 	}
 	switch f := call.Fun.(type) {
 	case *ast.FuncLit:
+		if b.loc != nil {
+			if isGo {
+				b.locSpawn(fmt.Sprintf("go@%s", b.pos(f)), f.Type, f.Body, call.Args, fc, "")
+				return frontier
+			}
+			b.locBind(f.Type, call.Args, fc.lc, fc.lc.env, fc.lc.refp)
+			b.declareParams(f.Type, fc)
+		}
 		if isGo {
 			// a goroutine started once by the constructor (not in a loop) runs as a single thread
 			b.addEntryG(fmt.Sprintf("go@%s", b.pos(f)), f.Body, fc.recv, "", -1, fc.ctor && !fc.inLoop())
@@ -335,6 +379,14 @@ func (b *builder) call(call *ast.CallExpr, frontier []int, fc *fnCtx, isGo bool)
 	case *ast.SelectorExpr:
 		if id, ok := f.X.(*ast.Ident); ok && fc.recv[id.Name] {
 			if m, isM := b.methods[f.Sel.Name]; isM {
+				if b.loc != nil {
+					if isGo {
+						b.locSpawn(fmt.Sprintf("go %s@%s", f.Sel.Name, b.pos(call)), m.Type, m.Body, call.Args, fc, f.Sel.Name)
+						return frontier
+					}
+					b.locBind(m.Type, call.Args, fc.lc, fc.lc.env, fc.lc.refp)
+					b.declareParams(m.Type, fc)
+				}
 				if isGo {
 					b.addEntryG(f.Sel.Name, nil, nil, f.Sel.Name, -1, fc.ctor && !fc.inLoop())
 					return frontier
@@ -348,6 +400,10 @@ func (b *builder) call(call *ast.CallExpr, frontier []int, fc *fnCtx, isGo bool)
 			return frontier
 		}
 		return b.expr(f.X, frontier, fc)
+	case *ast.Ident:
+		if lit, ok := fc.funcs[f.Name]; ok && isGo && b.loc != nil {
+			b.locSpawn(fmt.Sprintf("go %s@%s", f.Name, b.pos(lit)), lit.Type, lit.Body, call.Args, fc, "")
+		}
 	}
 	return frontier
 }
@@ -373,12 +429,12 @@ func (b *builder) inlineMethod(m *ast.FuncDecl, frontier []int, fc *fnCtx) []int
 		b.note("inlining depth 8 reached at %s", m.Name.Name)
 		return frontier
 	}
-	sub := &fnCtx{recv: map[string]bool{recvName(m): true}, stack: append(append([]string{}, fc.stack...), m.Name.Name), entry: fc.entry, labels: map[string]int{}, alias: map[string]map[string]bool{}, ctor: fc.ctor, loopDepth: fc.loopDepth + len(fc.breaks)}
+	sub := &fnCtx{recv: map[string]bool{recvName(m): true}, stack: append(append([]string{}, fc.stack...), m.Name.Name), entry: fc.entry, labels: map[string]int{}, alias: map[string]map[string]bool{}, ctor: fc.ctor, loopDepth: fc.loopDepth + len(fc.breaks), lc: fc.lc}
 	return b.finishFn(m.Body, frontier, sub)
 }
 
 func (b *builder) inlineBody(body *ast.BlockStmt, frontier []int, fc *fnCtx, _ string) []int {
-	sub := &fnCtx{recv: fc.recv, stack: fc.stack, entry: fc.entry, labels: map[string]int{}, alias: fc.alias, ctor: fc.ctor, funcs: fc.funcs}
+	sub := &fnCtx{recv: fc.recv, stack: fc.stack, entry: fc.entry, labels: map[string]int{}, alias: fc.alias, ctor: fc.ctor, funcs: fc.funcs, lc: fc.lc, loopDepth: fc.loopDepth + len(fc.breaks)}
 	return b.finishFn(body, frontier, sub)
 }
 
@@ -456,6 +512,19 @@ func (b *builder) assignTarget(lhs ast.Expr, frontier []int, fc *fnCtx) []int {
 	if f, ok := b.baseField(lhs, fc); ok {
 		return b.access(f, true, frontier, lhs, fc)
 	}
+	if b.loc != nil {
+		if id, isIdent := lhs.(*ast.Ident); isIdent {
+			return b.locAccess(id, true, true, frontier, fc)
+		}
+		if id := baseIdentNode(lhs); id != nil {
+			elem := false
+			if ix, ok := lhs.(*ast.IndexExpr); ok {
+				_, elem = ix.X.(*ast.Ident)
+			}
+			return b.locAccessE(id, true, false, elem, frontier, fc)
+		}
+		return frontier
+	}
 	if _, isIdent := lhs.(*ast.Ident); isIdent {
 		return frontier
 	}
@@ -518,6 +587,13 @@ func (b *builder) stmtL(s ast.Stmt, frontier []int, fc *fnCtx, label string) []i
 	case *ast.AssignStmt:
 		for _, r := range x.Rhs {
 			frontier = b.expr(r, frontier, fc)
+		}
+		if b.loc != nil && x.Tok == token.DEFINE {
+			for _, l := range x.Lhs {
+				if id, ok := l.(*ast.Ident); ok {
+					b.locDeclare(id, fc)
+				}
+			}
 		}
 		// x := func(..) {..}: remember the literal, so that handing x to an asynchronous API registers an entry
 		if len(x.Lhs) == len(x.Rhs) {
@@ -586,6 +662,11 @@ func (b *builder) stmtL(s ast.Stmt, frontier []int, fc *fnCtx, label string) []i
 				if vs, ok := sp.(*ast.ValueSpec); ok {
 					for _, v := range vs.Values {
 						frontier = b.expr(v, frontier, fc)
+					}
+					if b.loc != nil {
+						for _, nm := range vs.Names {
+							b.locDeclare(nm, fc)
+						}
 					}
 				}
 			}
@@ -690,6 +771,14 @@ func (b *builder) stmtL(s ast.Stmt, frontier []int, fc *fnCtx, label string) []i
 		return out
 	case *ast.RangeStmt:
 		frontier = b.expr(x.X, frontier, fc)
+		if b.loc != nil && x.Tok == token.DEFINE {
+			if id, ok := x.Key.(*ast.Ident); ok {
+				b.locDeclareIter(id, fc)
+			}
+			if id, ok := x.Value.(*ast.Ident); ok {
+				b.locDeclareIter(id, fc)
+			}
+		}
 		if f, ok := b.baseField(x.X, fc); ok && fc.alias != nil && x.Tok == token.DEFINE {
 			if v, ok := x.Value.(*ast.Ident); ok && v.Name != "_" {
 				if fc.alias[v.Name] == nil {
@@ -787,6 +876,9 @@ func (b *builder) addEntry(name string, body *ast.BlockStmt, recv map[string]boo
 // addEntryG registers an entry in group g (-1: a new group of its own); single marks a new group as
 // running at most one thread.  Returns the group.
 func (b *builder) addEntryG(name string, body *ast.BlockStmt, recv map[string]bool, method string, g int, single bool) int {
+	if b.loc != nil {
+		return -1 // locals mode: asynchronous registrations of methods are entries of the service graph only
+	}
 	if b.seenEntry[name] {
 		for _, pe := range b.pending {
 			if pe.name == name {
@@ -1035,8 +1127,14 @@ func analysePackage(repo, dir, typeName string) (*pkgResult, error) {
 			res.Accesses[fmt.Sprint(i)] = *n.acc
 		}
 	}
+	if !noLocals {
+		res.locals = analyseLocals(b, others, typeName)
+	}
 	return res, nil
 }
+
+// noLocals switches the locals pass (locals.go) off (-locals=false).
+var noLocals bool
 
 func dedup(xs []int) []int {
 	seen := map[int]bool{}
@@ -1060,7 +1158,9 @@ func main() {
 	out := flag.String("out", "", "output .v file")
 	meta := flag.String("meta", "", "output .json file with names and positions")
 	skips := flag.String("skip", "", "JSON file: [{package, field}] fields excluded from the conflict check (known findings)")
+	withLocals := flag.Bool("locals", true, "also extract, per package, the graph of the local variables shared by goroutines (<package>_locals)")
 	flag.Parse()
+	noLocals = !*withLocals
 	var skipList []knownSkip
 	if *skips != "" {
 		if data, err := os.ReadFile(*skips); err == nil {
@@ -1098,55 +1198,61 @@ func main() {
 			fmt.Fprintln(os.Stderr, "translator:", err)
 			os.Exit(2)
 		}
-		results = append(results, r)
-		names = append(names, r.Name)
-		fmt.Fprintf(&sb, "(* %s: mutexes %v; %d entries; %d nodes *)\n", r.Dir, r.Mutexes, len(r.Entries), len(r.nodes))
-		fmt.Fprintf(&sb, "Definition g_%s : graph := [\n", r.Name)
-		for i, n := range r.nodes {
-			succ := make([]string, 0, len(n.succ))
-			for _, s := range dedup(n.succ) {
-				succ = append(succ, fmt.Sprintf("%d%%nat", s))
-			}
-			sep := ";"
-			if i == len(r.nodes)-1 {
-				sep = ""
-			}
-			cm := ""
-			if n.acc != nil {
-				cm = fmt.Sprintf(" (* %d %s %s %s *)", i, n.acc.Field, n.pos, n.acc.Entry)
-			}
-			fmt.Fprintf(&sb, "  nd (%s) [%s] %d%s%s\n", n.instr, strings.Join(succ, "; "), n.owner, sep, cm)
+		rs := []*pkgResult{r}
+		if r.locals != nil {
+			rs = append(rs, r.locals)
 		}
-		sb.WriteString("].\n")
-		ents := make([]string, 0, len(r.entryIDs))
-		for _, e := range r.entryIDs {
-			ents = append(ents, fmt.Sprintf("%d%%nat", e))
-		}
-		fmt.Fprintf(&sb, "Definition entries_%s : list nat := [%s].\n", r.Name, strings.Join(ents, "; "))
-		var sk []string
-		for _, k := range skipList {
-			if k.Package == r.Dir {
-				for i, f := range r.Fields {
-					if f == k.Field {
-						sk = append(sk, fmt.Sprintf("(f =? %d)", i+1))
+		for _, r := range rs {
+			results = append(results, r)
+			names = append(names, r.Name)
+			fmt.Fprintf(&sb, "(* %s: mutexes %v; %d entries; %d nodes *)\n", r.Dir, r.Mutexes, len(r.Entries), len(r.nodes))
+			fmt.Fprintf(&sb, "Definition g_%s : graph := [\n", r.Name)
+			for i, n := range r.nodes {
+				succ := make([]string, 0, len(n.succ))
+				for _, s := range dedup(n.succ) {
+					succ = append(succ, fmt.Sprintf("%d%%nat", s))
+				}
+				sep := ";"
+				if i == len(r.nodes)-1 {
+					sep = ""
+				}
+				cm := ""
+				if n.acc != nil {
+					cm = fmt.Sprintf(" (* %d %s %s %s *)", i, n.acc.Field, n.pos, n.acc.Entry)
+				}
+				fmt.Fprintf(&sb, "  nd (%s) [%s] %d%s%s\n", n.instr, strings.Join(succ, "; "), n.owner, sep, cm)
+			}
+			sb.WriteString("].\n")
+			ents := make([]string, 0, len(r.entryIDs))
+			for _, e := range r.entryIDs {
+				ents = append(ents, fmt.Sprintf("%d%%nat", e))
+			}
+			fmt.Fprintf(&sb, "Definition entries_%s : list nat := [%s].\n", r.Name, strings.Join(ents, "; "))
+			var sk []string
+			for _, k := range skipList {
+				if k.Package == r.Dir {
+					for i, f := range r.Fields {
+						if f == k.Field {
+							sk = append(sk, fmt.Sprintf("(f =? %d)", i+1))
+						}
 					}
 				}
 			}
-		}
-		if len(sk) == 0 {
-			sk = []string{"false"}
-		}
-		fmt.Fprintf(&sb, "Definition skip_%s (f : field) : bool := %s.\n", r.Name, strings.Join(sk, " || "))
-		var sg []string
-		for gi, single := range r.Single {
-			if single {
-				sg = append(sg, fmt.Sprintf("(o =? %d)%%nat", gi))
+			if len(sk) == 0 {
+				sk = []string{"false"}
 			}
+			fmt.Fprintf(&sb, "Definition skip_%s (f : field) : bool := %s.\n", r.Name, strings.Join(sk, " || "))
+			var sg []string
+			for gi, single := range r.Single {
+				if single {
+					sg = append(sg, fmt.Sprintf("(o =? %d)%%nat", gi))
+				}
+			}
+			if len(sg) == 0 {
+				sg = []string{"false"}
+			}
+			fmt.Fprintf(&sb, "Definition single_%s (o : nat) : bool := %s.\n\n", r.Name, strings.Join(sg, " || "))
 		}
-		if len(sg) == 0 {
-			sg = []string{"false"}
-		}
-		fmt.Fprintf(&sb, "Definition single_%s (o : nat) : bool := %s.\n\n", r.Name, strings.Join(sg, " || "))
 	}
 	sb.WriteString("Definition services : list (string * graph * list nat * (field -> bool) * (nat -> bool)) := [\n")
 	for i, n := range names {
